@@ -3,7 +3,7 @@
 cd /verif
 for p in "$@"; do
   for n in 1 2; do
-    d=/tmp/w3/$p/out/pair$n
+    d=${ROUND_DIR:-/tmp/w4}/$p/out/pair$n
     [ -f $d/break/patch.diff ] || { echo "$p-pair$n MISSING"; continue; }
     tools/verify_pair.sh $d $p-pair$n | tee -a /tmp/pairs.log | cut -c1-400
   done
